@@ -112,6 +112,40 @@ pub(crate) fn eval_macro<'env, 'template>(
     caller: Option<Value>,
     args: Vec<Value>,
 ) -> Result<Option<Value>, Error> {
+    #[cfg(feature = "verif_hooks")]
+    let verif_closures_logged = crate::verif_hooks::closures::enabled();
+    #[cfg(feature = "verif_hooks")]
+    if verif_closures_logged {
+        // the context of the call is assembled next: its `push_frame` (and the store of
+        // `caller`) are logged with the attachments of the new context
+        let mut keys: Vec<String> = closure
+            .and_then(|c| state.closures.get(c))
+            .map(|c| c.keys().map(|k| k.to_string()).collect())
+            .unwrap_or_default();
+        keys.sort();
+        crate::verif_hooks::closures::log(
+            crate::verif_hooks::closures::Op::EnterMacro(
+                instructions_id,
+                pc,
+                closure,
+                keys,
+                caller.is_some(),
+            ),
+            Vec::new(),
+        );
+    }
+    #[cfg(feature = "verif_hooks")]
+    {
+        let rv = Executor::eval_macro(state, instructions_id, pc, out, closure, caller, args);
+        if verif_closures_logged {
+            crate::verif_hooks::closures::log(
+                crate::verif_hooks::closures::Op::LeaveMacro,
+                state.ctx.verif_frame_closures(),
+            );
+        }
+        rv
+    }
+    #[cfg(not(feature = "verif_hooks"))]
     Executor::eval_macro(state, instructions_id, pc, out, closure, caller, args)
 }
 
@@ -1012,6 +1046,16 @@ impl<'env> Executor<'env> {
                         state.ctx.reset_closure(Some(closure));
                     }
                     state.ctx.enclose(&mut state.closures, name);
+                    #[cfg(feature = "verif_hooks")]
+                    if crate::verif_hooks::closures::enabled() {
+                        crate::verif_hooks::closures::log(
+                            crate::verif_hooks::closures::Op::Enclose(
+                                name.to_string(),
+                                state.ctx.closure(),
+                            ),
+                            state.ctx.verif_frame_closures(),
+                        );
+                    }
                 }
                 #[cfg(feature = "macros")]
                 Instruction::GetClosure => {
@@ -1367,6 +1411,18 @@ impl<'env> Executor<'env> {
         let arg_spec = stack.pop().try_iter().unwrap().collect();
         let closure = stack.pop().as_usize();
         let instructions_id = state.instructions as *const Instructions<'_> as usize;
+        #[cfg(feature = "verif_hooks")]
+        if crate::verif_hooks::closures::enabled() {
+            crate::verif_hooks::closures::log(
+                crate::verif_hooks::closures::Op::BuildMacro(
+                    name.to_string(),
+                    instructions_id,
+                    offset,
+                    closure,
+                ),
+                state.ctx.verif_frame_closures(),
+            );
+        }
         state
             .macro_instructions
             .entry(instructions_id)
